@@ -45,6 +45,7 @@ class Server:
         self.killed = False
         self.stderr = b""
         self.holding_lock = False
+        self.blocked = False      # last flock attempt returned EWOULDBLOCK; retry after another actor moved
 
 
 class Op:
@@ -235,6 +236,8 @@ class HubRun:
         except subprocess.TimeoutExpired:
             raise Inconclusive("server %d closed its gate but did not exit" % s.idx)
         s.exited = True
+        for t in self.servers:
+            t.blocked = False
         if self.lock_holder == s.idx:
             self.lock_holder = None
         self._drain_outputs()
@@ -247,7 +250,9 @@ class HubRun:
         if op == "read0":
             return s.sent - s.consumed > 0 or s.stdin_closed
         if op == "flock":
-            return self.lock_holder is None or self.lock_holder == s.idx
+            # no assumption about lock modes (shared / exclusive / conversions): any attempt is allowed;
+            # after a BLOCKED answer the server is disabled until some other server has taken a step
+            return not s.blocked
         return True
 
     def client_next_piece(self, c):
@@ -363,9 +368,14 @@ class HubRun:
         parts = line.decode("utf-8", "surrogateescape").split(" ")
         if parts[0] == "BLOCKED":
             self.trace.append((self.step, "srv%d" % s.idx, "flock BLOCKED"))
+            s.blocked = True
             s.pending = None
             self._await_req(s)
             return
+        # a call really executed: whoever waits for the lock may try again
+        for t in self.servers:
+            if t is not s:
+                t.blocked = False
         if parts[0] != "DONE":
             raise Inconclusive("expected DONE, got %r" % line)
         ret, err = int(parts[2]), int(parts[3])
@@ -481,6 +491,14 @@ class HubRun:
                 self.on_step(self)
             while not self.finished():
                 acts = self.enabled_actions()
+                if not acts and any(s.blocked for s in self.servers if s.alive):
+                    # everybody who could move is waiting for the lock: let them retry
+                    for s in self.servers:
+                        s.blocked = False
+                    self.blocked_retries = getattr(self, "blocked_retries", 0) + 1
+                    if self.blocked_retries > 200:
+                        raise Inconclusive("lock never becomes available")
+                    continue
                 if not acts:
                     # clients whose program is over but never said Bye: close their stdin
                     progressed = False
